@@ -122,7 +122,11 @@ def build_evaluator(spec):
     if kind == "fn":
         return K.fn_evaluator
     if kind == "rows":
-        return K.RowsEvaluator(**kw)
+        kw = dict(kw)
+        single = kw.pop("single_mapping", False)
+        ev = K.RowsEvaluator(**kw)
+        ev.single_mapping = single
+        return ev
     if kind == "tap":
         return K.TapEvaluator(build_evaluator(kw["inner"]), kw.get("tag", "tap"))
     if kind == "counting":
@@ -274,8 +278,20 @@ def _run_inproc(spec, result_file, config, sink):
     kw = dict(processes=config[0], maxchunksperchild=config[1], maxtasksperchunk=config[2], quiet=spec.get("quiet", True))
     if "seed" in spec:
         kw["seed"] = spec["seed"]
-    res = exp.run(result_file, **kw)
+    with _logger_setup(spec, sink):
+        res = exp.run(result_file, **kw)
     return res, objs, sink
+
+
+def _logger_setup(spec, sink):
+    """spec["logger"] == "indent": coba's default logger (IndentLogger) instead of the BasicLogger the harness normally installs; with
+    spec["outer_time"] the whole run additionally happens inside a `with CobaContext.logger.time(...)` block of the caller."""
+    from contextlib import nullcontext
+    from coba.context import CobaContext
+    if spec.get("logger") == "indent":
+        from coba.context import IndentLogger
+        CobaContext.logger = IndentLogger(sink)
+    return CobaContext.logger.time("my benchmark") if spec.get("outer_time") else nullcontext()
 
 
 class InvalidSpec(Exception):
@@ -311,7 +327,8 @@ def run_simulated(spec, config, seed, choices=None, result_file=None, knobs=None
     out = {}
 
     def main():
-        out["result"] = exp.run(result_file, **kw)
+        with _logger_setup(spec, sink):
+            out["result"] = exp.run(result_file, **kw)
 
     try:
         outcome = run_sim(sim, main, wall_timeout=300.0)
